@@ -459,7 +459,10 @@ std::vector<Token> get_replacement(
         break;
       }
       case Theo::Token::TEMP_VAL: {
-        std::string text = cand.text + ":" + cand.file + ":" +
+        // one name per (#n, definition, expansion step): the definition is
+        // identified by the position of its first body token, not by the file
+        // of each single token (a body may be spread over included files)
+        std::string text = cand.text + ":" + def.replacement[0].file + ":" +
                            std::to_string(def.replacement[0].line) + "_(M" +
                            std::to_string(pass) + ")";
         Token next = cand;
